@@ -2,9 +2,9 @@ import FpgoVerif.Model.C18
 /-! Helper lemmas for C18. -/
 namespace FpgoVerif.C18
 
-theorem visit_eq (beh : Nat → Req → Req × Bool) (s : SH) (t : Tr) (ht : s.clientTransport = some t) (hne : t ≠ .self) :
+theorem visit_eq (beh : Nat → Req → Req × Bool) (tf : Tr → Bool) (s : SH) (t : Tr) (ht : s.clientTransport = some t) (hne : t ≠ .self) :
     ∀ fuel req index, index ≤ s.interceptors.length → s.interceptors.length + 1 ≤ fuel + index →
-      recursiveVisit beh s fuel req index = Spec.visit beh t (s.interceptors.drop index) req := by
+      recursiveVisit beh tf s fuel req index = Spec.visit beh tf t (s.interceptors.drop index) req := by
   intro fuel
   induction fuel with
   | zero => intro req index h1 h2; omega
